@@ -93,6 +93,11 @@ def main(ctx):
         if v['child_saw'] != 17 or v['parent_saw'] != 23:
             ctx.violation('write not visible across processes (%s): %r' % (v['method'], v),
                           'observed:visibility:%s' % v['method'], replay=v)
+    for h in data.get('handed_on', []):
+        if h['end_exit'] != 0 or [h['int'], h['double']] != h['expected']:
+            ctx.violation('shared values handed on by a process that had only received them are not the shared '
+                          'ones any more (%s): %r' % (h['method'], h), 'observed:handed_on:%s' % h['method'], replay=h)
+    ctx.note('handed_on', data.get('handed_on'))
     fi = data['fork_isolation']
     if not (fi['parent_zero_at_birth'] and fi['parent_intact'] and fi['child_intact']):
         ctx.violation('objects allocated on either side of a fork share storage: %r' % fi,
